@@ -11,7 +11,8 @@ TECHNIQUE = "reference-model monitor: include-graph model (R2, active-file stack
 FLAVOURS = [("asan", "generated")]
 RULE = ("every include graph over N files (main + others) with 0-2 include directives per file, each targeting any of the files, "
         "itself, a missing name or nothing (directive without quoted name), plus an absent main file - enumerated exhaustively "
-        "(thorough: N=4 up to renaming of the non-main files) - and random graphs over 5-8 files with up to 4 directives; every file "
+        "(thorough: N=4 up to renaming of the non-main files) - and random graphs over 5-8 files with up to 4 directives, and graphs of unusual size (chains 130-300 files deep ending in an include of any ancestor / a missing file / a finished sibling, "
+        "one file included 300 times in a row, a file including 300 others); every file "
         "carries unique marker identifiers so the token stream shows which inclusions happened; scan errors "
         "(type,file,line,request), tokens, and compile's file_requests are compared with the model; "
         "non-trivial = at least one include directive; distinct by SHA-1 of the file map")
@@ -58,6 +59,8 @@ def plan(tier, seed):
     nrand = 2000 if tier == "quick" else 40000
     for i in range(nrand // 500):
         specs.append({"kind": "rand", "chunk": i, "n": 500, "seed": seed})
+    for i in range(2 if tier == "quick" else 12):
+        specs.append({"kind": "deep", "chunk": i, "seed": seed})
     return specs
 
 
@@ -86,6 +89,29 @@ def gen(spec):
         out.append(({}, "m"))
         out.append(({"a": "x := 1"}, ""))
         out.append(({"": 'k1 include "" k2'}, ""))
+    elif spec["kind"] == "deep":
+        # graphs of unusual size: chains 130-300 files deep that end in an include of an ancestor (every position of the active
+        # stack), of a missing file, of a finished sibling; one file included 300 times in a row; a file including 300 others
+        r = common.rng(spec["seed"], "C15deep", spec["chunk"])
+        for _ in range(6):
+            n = r.choice([130, 260, 300])
+            names = ["d%d" % i for i in range(n)]
+            files = {}
+            for i, nm in enumerate(names):
+                ds = [names[i + 1]] if i + 1 < n else []
+                q = r.random()
+                if i + 1 == n or q < 0.05:
+                    ds.append(r.choice([names[r.randrange(0, i + 1)], names[0], nm, "missing%d" % i, "sib", None]))
+                files[nm] = body(nm, ds, marker="k%d_" % i)
+            files["sib"] = "s1 s2"
+            files[names[0]] = 'include "sib" ' + files[names[0]]
+            out.append((files, names[0]))
+        n = r.choice([260, 300])
+        out.append(({"m": "a1 " + " ".join('include "x"' for _ in range(n)) + " a2", "x": "q1\nq2"}, "m"))
+        out.append(({"m": "a1 " + "\n".join('include "x"' for _ in range(n)) + " a2", "x": 'q1 include "m" q2 include "y"', "y": 'include "x" r'}, "m"))
+        files = {"w%d" % i: "t%d" % i if i % 7 else 't%d include "w%d" include "m"' % (i, (i * 3) % n) for i in range(n)}
+        files["m"] = " ".join('include "w%d"' % i for i in range(n)) + ' include "nope"'
+        out.append((files, "m"))
     else:
         r = common.rng(spec["seed"], "C15rand", spec["chunk"])
         for _ in range(spec["n"]):
